@@ -14,6 +14,8 @@ chan K=.. Nr=.. Nt=.. NtE=..|- Ns=.. mode=ic|jp ext=0|1 big=.. pl=..|none noise=
 solver K=.. Nr=.. Nt=.. NtE=..|- Ns=.. ext=0|1 big=.. pl=..|none noise=..|none F=.. P=..|none WH=..
    -> <calc_SINR>|<calc_SINR_in_dB>|<calc_sum_capacity>|<calc_Q of every receiver>
 cap <floats>   -> calc_shannon_sum_capacity
+cap2 r1;r2;..  -> calc_shannon_sum_capacity of a nested / multi-dimensional argument (rows)
+q <as chan> k=<n> -> calc_Q / calc_JP_Q of the receiver whose index has the VALUE n (or error:IndexError)
 ```
 -/
 
@@ -157,6 +159,14 @@ def chanReply : String :=
     if s.ext then extQ (s.G k) V k (s.He k) s.pe s.noise else chQ (s.G k) V k s.noise
   showE showLL sinr ++ "|" ++ ";".intercalate ((List.finRange s.K).map (fun k => showMat (q k)))
 
+/-- `calc_Q(k, …)` / `calc_JP_Q(k, …)` for ONE receiver index given by its value -/
+def qReply (k : Nat) : String :=
+  let V := s.V0
+  match indexArg s.K k with
+  | .error e => "error:" ++ toString e
+  | .ok kk =>
+    showMat (if s.ext then extQ (s.G kk) V kk (s.He kk) s.pe s.noise else chQ (s.G kk) V kk s.noise)
+
 def solverReply : String :=
   let V : (j : Fin s.K) → Mat CF (s.t j) (s.ns j) := match s.P with
     | none => s.V0
@@ -183,8 +193,15 @@ def handle : List String → String
   | "solver" :: toks => match parseScn toks with
       | some s => s.solverReply
       | none => "bad-op"
+  | "q" :: toks => match parseScn toks, (kv toks "k").bind String.toNat? with
+      | some s, some k => s.qReply k
+      | _, _ => "bad-op"
   | ["cap", xs] => match parseFloatList? (dash xs) with
       | some l => showFloat (shannonSum l)
+      | none => "bad-op"
+  -- cap2 r1;r2;…  (rows of a nested argument, `-` = empty row)
+  | ["cap2", xs] => match ((xs.splitOn ";").mapM (fun r => parseFloatList? (dash r))) with
+      | some rows => showFloat (shannonSumNested rows)
       | none => "bad-op"
   | _ => "bad-op"
 
